@@ -10,6 +10,12 @@ def showOpt2 (o : Option (Int × Int)) : String :=
 
 def igOp (op : String) (a : List Int) : Option String :=
   match op, a with
+  | "ig.staked", [p, e, st, su] =>
+    some (match stakedAdjust p e st su with
+      | .ok a b => s!"ok {a} {b}"
+      | .zeroSupply => "zero"
+      | .math => "math"
+      | .panic => "panic")
   | "ig.adj128", [raw, r] => some (showOpt (adjustI128 raw r))
   | "ig.adj64", [raw, r] => some (showOpt (adjustI64 raw r))
   | "ig.adju64", [raw, r] => some (showOpt (adjustU64 raw r))
